@@ -206,3 +206,45 @@ def ge5(P, C):
         C.ob("GE-5", name, "no-absolute-threshold", not bad, f.loc(bad[0][0]) if bad else f.where(),
              "no absolute constant, no thresholding call" if not bad else
              "%s: entries below an absolute size are dropped, so the grid values of a table of small scale are not the values pointwise evaluation returns" % bad[0][1])
+
+
+def ge6(P, C):
+    """GE-6: the Cox-de Boor recursion takes 0/0 as 0."""
+    C.rule("GE-6", "in the recursion bspline() — the fitter's private copy, which fills the basis matrices of fit and grideval, and the library's "
+           "reference — every division by a knot span knots[a] - knots[b] is executed only under a test that this very span is positive "
+           "(or non-zero): over a repeated knot, which a well-formed table may have, the numerator is zero as well and the term is zero by "
+           "convention; 0/0 = NaN otherwise poisons the whole basis column (grid values NaN where pointwise evaluation is finite)", floor=4)
+    fs_ = [f for f in P.fns("bspline") if f.file.endswith("splineutil.c") or f.file.endswith("core/bspline.cpp")]
+    if len(fs_) != 2:
+        raise core.AnalysisBroken("GE-6: expected the fitter's and the reference bspline(), found %d" % len(fs_))
+    n = 0
+    for f in sorted(fs_, key=lambda g: g.file):
+        tag = "bspline@%s" % f.file.rsplit("/", 1)[-1]
+        divs = [i for i in f.walk() if f.k(i) in ("BinaryOperator", "CompoundAssignOperator") and f.nodes[i].get("op") in ("/", "/=")]
+        if not divs:
+            raise core.AnalysisBroken("GE-6: no division in %s" % tag)
+        for k, d in enumerate(sorted(divs, key=f.seq)):
+            den = core.poly(f, f.nodes[d]["ch"][1])
+            ok, how = False, None
+            for a in f.ancestors(d):
+                if f.k(a) != "IfStmt" or d not in set(f.walk(f.nodes[a]["then"])):
+                    continue
+                conn, leaves = core.cond_leaves(f, f.nodes[a]["cond"])
+                if conn not in ("&&", "leaf"):
+                    continue
+                for lf in leaves:
+                    c, neg = core.cond_polarity(f, lf)
+                    nn = f.nodes[c]
+                    if neg or nn["k"] != "BinaryOperator" or nn.get("op") not in ("<", "!="):
+                        continue
+                    l, r = core.poly(f, nn["ch"][0]), core.poly(f, nn["ch"][1])
+                    # a < b  with  b - a == den   |   a != b with +-(a-b) == den
+                    if nn["op"] == "<" and (r - l) == den:
+                        ok, how = True, f.render(c)
+                    if nn["op"] == "!=" and ((r - l) == den or (l - r) == den):
+                        ok, how = True, f.render(c)
+            n += 1
+            C.ob("GE-6", tag, "span-positive-before-division#%d" % k, ok, f.loc(d),
+                 "division by %s only under %s" % (f.render(f.nodes[d]["ch"][1]), how) if ok else
+                 "division by the knot span %s without a test that it is positive: over a repeated knot this is 0/0" % f.render(f.nodes[d]["ch"][1]))
+    return n
